@@ -94,6 +94,34 @@ pub fn run() {
         }
         Err(c) => println!("B9 panic {}", c),
     }
+    // B10: "from all initial capacities": worlds created just below the limit (and at an odd
+    // capacity no doubling step ever produces) are filled, must still grow to exactly 2^24
+    // entities, and only then refuse
+    for (i, c0) in [MAX - 1, MAX - 2, MAX - 7, 3 * (MAX / 4) + 1].into_iter().enumerate() {
+        let r = guard(|| Wc::with_capacity(WcCapacity { big: c0 }));
+        match r {
+            Ok(mut w) => {
+                let mut failed_at: i64 = -1;
+                let mut within_ok = true;
+                while w.big.len() < MAX {
+                    let n = w.big.len();
+                    if n < c0 {
+                        if w.big.create_within_capacity((Plain(n as u32),)).is_err() {
+                            within_ok = false;
+                            break;
+                        }
+                    } else if guard(|| w.big.create((Plain(n as u32),))).is_err() {
+                        failed_at = n as i64;
+                        break;
+                    }
+                }
+                let extra = guard(|| w.big.create((Plain(1),)));
+                println!("B10.{} cap0_below_max={} within_ok={} len={} cap={} failed_at={} extra={}", i, MAX - c0, within_ok as u8, w.big.len(), w.big.capacity(), failed_at,
+                    match extra { Ok(_) => "ok".to_string(), Err(c) => format!("panic:{}", c) });
+            }
+            Err(c) => println!("B10.{} cap0_below_max={} with_capacity panic {}", i, MAX - c0, c),
+        }
+    }
     // B7: growth from the default (empty) world all the way to the limit
     let mut w = Wc::new();
     let mut failed_at: i64 = -1;
